@@ -43,4 +43,9 @@ RecoveredOK(c) == c.after = c.after_normal
 \* a scan with a timeout of T seconds on work that needs much longer returns ERROR_SCAN_TIMEOUT (26) within T + slack
 \* (a scan that completes before the deadline is of course fine)
 TimeoutOK(c) == c.ret \in {26, 0} /\ c.ms <= 1000 * c.timeout + c.slack_ms /\ (c.ret = 0 => c.ms <= 1000 * c.timeout + c.slack_ms)
+\* evaluation-stack sweep: the same rule scanned with stack sizes 1, 2, 3, ...: too small a stack is the documented scan error
+\* ERROR_EXEC_STACK_OVERFLOW (25), a sufficient one is success, and sufficiency is monotone in the size
+StackSweepOK(c) ==
+  /\ \A k \in 1..Len(c.rets) : c.rets[k] \in {0, 25}
+  /\ \A k \in 1..(Len(c.rets) - 1) : c.rets[k] = 0 => c.rets[k + 1] = 0
 =============================================================================
